@@ -50,7 +50,7 @@ Pre(cur, e) ==
     [] e.ev = "replace"   -> CanReplace(cur, e.c, e.p)
     [] e.ev = "dropblocker" -> CanDropBlocker(cur, e.c, e.b)
     [] e.ev = "addblocker" -> CanAddBlocker(cur, e.c, e.b)
-    [] e.ev = "backtrack" -> e.pos <= Len(cur.plan)
+    [] e.ev = "backtrack" -> e.pos <= Len(cur.plan) /\ (e.fault = 0 \/ (e.pos < e.fault /\ e.fault <= Len(cur.plan)))
     [] OTHER -> TRUE
 Expected(cur, e) ==
   CASE e.ev = "add"       -> DoAdd(cur, e.c, e.p, e.force)
@@ -60,14 +60,15 @@ Expected(cur, e) ==
     [] e.ev = "dropblocker" -> DoDropBlocker(cur, e.c, e.b)
     [] e.ev = "hardref"   -> DoHardref(cur, e.r)
     [] e.ev = "backref"   -> DoBackref(cur, e.c, e.p)
-    [] e.ev = "backtrack" -> DoBacktrack(cur, e.pos)
+    [] e.ev = "backtrack" -> (IF e.fault > 0 THEN DoBacktrackCut(cur, e.pos, e.fault) ELSE DoBacktrack(cur, e.pos))
 
 Judge(cur, e) ==
   LET obs == Obs(e.st) IN
   IF ~Pre(cur, e) THEN {"OutsideDomain"}          \* generator error, never a verdict on the code
   ELSE LET exp == Expected(cur, e)
            tag == IF e.ev = "backtrack" THEN "Rollback" ELSE IF e.ev = "replace" /\ exp.ret # {} THEN "RefusedReplace" ELSE "Post"
-       IN (IF e.raised THEN {tag \o "_raised"} ELSE {})
+           cut == e.ev = "backtrack" /\ e.fault > 0   \* the injected interruption must propagate, nothing else may raise
+       IN (IF e.raised # cut THEN {tag \o "_raised"} ELSE {})
           \cup Diff(tag, obs, exp.s)
           \cup (IF ~e.raised /\ AsSet(e.ret) # exp.ret THEN {"ReturnValue"} ELSE {})
           \cup (IF \A k \in DOMAIN e.st.limiters : e.st.limiters[k][2] = TBKeyOf[e.st.limiters[k][1]]
